@@ -1,12 +1,14 @@
-(* Extraction of the C26 model.  Directives used: exactly those of ExtrOcamlBasic. *)
+(* Extraction of the C26 model.  Directives used: exactly those of ExtrOcamlBasic.
+   Depends on the model file Sec/Authz.v only (not on the regenerated facts, not on proofs): the
+   oracle is available to the search phase also when a proof over Generated/C26Tables.v breaks. *)
 Require Extraction.
 Require Import ExtrOcamlBasic.
-From OFGA Require Import Generated.C26Tables Sec.Authz.
+From OFGA Require Import Sec.Authz.
 Extraction Language OCaml.
 Extraction "c26_model.ml"
   authorize write_authorize authorize_create_store authorize_system list_stores list_stores_sqlite accessible_stores
   list_stores_pre_c075cf0 extract_modules is_allow
   spec_allowed spec_write_allowed spec_system_allowed spec_relation relation_of
   method_of_bytes relation_of_bytes relation_bytes api_method_bytes all_api_methods all_relations
-  handler_known_b handler_store_scoped_b handler_model_read_before_authz_b handler_authorizes_first_b
+  handler_known_b handler_store_scoped_b handler_model_read_before_authz_b
   max_modules_in_request.
